@@ -17,7 +17,7 @@ from pathlib import Path
 
 from .common import Ctx, hx, unhx
 
-DRIVERS = ["drv_cmd"]
+DRIVERS = ["drv_cmd", "drv_misc"]
 EVIDENCE = dict(
     level="proof",
     trusted=[
@@ -325,6 +325,8 @@ def check_case(ctx: Ctx, c: dict):
         _check_derive(ctx, d, c)
     elif k == "mutate":
         _check_mutate(ctx, d, c)
+    elif k == "spell":
+        _check_spell(ctx, d, c)
     else:
         raise ValueError(k)
 
@@ -1143,6 +1145,387 @@ def payload_cases(ctx: Ctx):
                                "via": rng.choice(["to_bytes", "send"]), "steps": [first] + tail}
 
 
+# ---------------------------------------------------------------------------------------
+# enum values given by their SPELLING: every text / number / bool a caller may write for an enum field, through every
+# entry point that accepts it, must be serialised with the protocol code the spelling stands for.
+# The tables below are the specification: the documented names of the unchanged source tree (kitty graphics protocol:
+# t=d direct / in the escape code stream, t=f regular file, t=t temporary file, t=s shared memory object; f=24 RGB,
+# f=32 RGBA, f=100 PNG; o=z zlib; q=0/1/2; the deletion specifiers), written down once.  They are never read from the
+# tree under test.
+# ---------------------------------------------------------------------------------------
+MEDIUM_SPELLINGS = {"d": "DIRECT", "direct": "DIRECT", "stream": "DIRECT", "f": "FILE", "file": "FILE",
+                    "t": "TEMP_FILE", "temp": "TEMP_FILE", "tempfile": "TEMP_FILE", "s": "SHARED_MEMORY", "shm": "SHARED_MEMORY"}
+MEDIUM_UNKNOWN = ["", "x", "D", "S", "Direct", "STREAM", "streams", "strea", "str", "dstream", "memory", "shared", "sharedmemory",
+                  "shared_memory", "shm ", " d", "dd", "fi", "files", "filename", "sh", "tmp", "temp_file", "tempfiles", "te",
+                  "a", "q", "z", "DIRECT", "FILE", "TEMP_FILE", "SHARED_MEMORY", "TransmissionMedium.DIRECT", "0", "d,f", "d\n"]
+ENUM_CODES = {
+    "medium": {"DIRECT": "d", "FILE": "f", "TEMP_FILE": "t", "SHARED_MEMORY": "s"},
+    "format": {"RGB": 24, "RGBA": 32, "PNG": 100},
+    "compression": {"ZLIB": "z"},
+    "quiet": {"VERBOSE": 0, "QUIET_UNLESS_ERROR": 1, "QUIET_ALWAYS": 2},
+    "what": {"VISIBLE_PLACEMENTS": "a", "IMAGE_OR_PLACEMENT_BY_ID": "i", "IMAGE_OR_PLACEMENT_BY_NUMBER": "n",
+             "PLACEMENTS_UNDER_CURSOR": "c", "ANIMATION_FRAMES": "f", "PLACEMENTS_AT_POSITION": "p",
+             "PLACEMENTS_AT_POSITION_AND_ZINDEX": "q", "PLACEMENTS_AT_COLUMN": "x", "PLACEMENTS_AT_ROW": "y",
+             "PLACEMENTS_AT_ZINDEX": "z"},
+}
+ENUM_KEY = {"medium": "t", "format": "f", "compression": "o", "quiet": "q", "what": "d"}
+FORMAT_BITS = {24: "RGB", 32: "RGBA"}
+FORMAT_BITS_UNKNOWN = [0, 1, 8, 16, 23, 25, 31, 33, 48, 64, 99, 101, 240, 320, -24, -32]
+SPELL_ENTRIES = ["from_string", "config_norm", "config_override", "config_dict", "config_env", "config_toml"]
+TERM_ENTRIES = ["terminal_config", "terminal_call", "terminal_env"]
+
+
+def _escapes(stream: bytes):
+    """[(header {key: value}, payload bytes)] of a command stream (plain python reading, for the literal tables)."""
+    out = []
+    for part in stream.split(b"\033_G")[1:]:
+        body = part.split(b"\033\\")[0]
+        hdr, _, pay = body.partition(b";")
+        out.append(({kv.partition(b"=")[0].decode("latin-1"): kv.partition(b"=")[2].decode("latin-1") for kv in hdr.split(b",") if kv}, pay))
+    return out
+
+
+def _spell_obtain(c):
+    """The enum member the real code makes of the spelling, through the entry point of the case:
+    ("ok", member or None) | ("rejected", exception text) ."""
+    import os
+    gc = gcmod()
+    enum, entry = c["enum"], c["entry"]
+    try:
+        if enum == "medium" and "text" in c:
+            text = c["text"]
+            if entry == "from_string":
+                return "ok", gc.TransmissionMedium.from_string(text)
+            from tupimage import tupimage_terminal as tt
+            if entry == "config_norm":
+                return "ok", tt.TupimageConfig.validate_and_normalize("upload_method", text)
+            cfg = tt.TupimageConfig()
+            if entry == "config_override":
+                cfg.override(upload_method=text)
+            elif entry == "config_dict":
+                cfg.override_from_dict({"upload_method": text})
+            elif entry == "config_toml":
+                import toml
+                cfg.override_from_toml_string(toml.dumps({"upload_method": text}))
+            elif entry == "config_env":
+                if "\x00" in text:
+                    raise ValueError("not an environment value")
+                old = os.environ.get("TUPIMAGE_UPLOAD_METHOD")
+                saved = {k: os.environ.pop(k) for k in list(os.environ) if k.startswith("TUPIMAGE_")}
+                os.environ["TUPIMAGE_UPLOAD_METHOD"] = text
+                try:
+                    cfg.override_from_env()
+                finally:
+                    del os.environ["TUPIMAGE_UPLOAD_METHOD"]
+                    os.environ.update(saved)
+            else:
+                raise KeyError(entry)
+            return "ok", cfg.upload_method
+        if entry == "from_bits":
+            return "ok", gc.Format.from_bits(c["bits"])
+        if entry == "from_bool":
+            return "ok", gc.Compression.from_bool(c["flag"])
+        if entry == "by_value":
+            return "ok", getattr(gc, ENUM_OF[enum])(c["code"])
+        if entry == "by_name":
+            return "ok", getattr(gc, ENUM_OF[enum])[c["name"]]
+        raise KeyError(entry)
+    except ValueError as e:
+        return "rejected", str(e)[:200]
+
+
+def _spell_expected(c):
+    """What the spelling stands for by the tables: ("ok", member name or None) | ("rejected", None)."""
+    enum, entry = c["enum"], c["entry"]
+    if enum == "medium" and "text" in c:
+        return ("ok", MEDIUM_SPELLINGS[c["text"]]) if c["text"] in MEDIUM_SPELLINGS else ("rejected", None)
+    if entry == "from_bits":
+        return ("ok", FORMAT_BITS[c["bits"]]) if c["bits"] in FORMAT_BITS else ("rejected", None)
+    if entry == "from_bool":
+        return "ok", ("ZLIB" if c["flag"] else None)
+    if entry == "by_value":
+        names = [n for n, code in ENUM_CODES[enum].items() if code == c["code"]]
+        return ("ok", names[0]) if names else ("rejected", None)
+    if entry == "by_name":
+        return "ok", c["name"]
+    raise KeyError(entry)
+
+
+_PTY = {}
+
+
+def _spell_host():
+    """one pty-hosted interpreter (TupimageTerminal opens /dev/tty) shared by the `terminal_*` cases of a run"""
+    if "h" not in _PTY:
+        from .ptyhost import PtyHost
+        h = PtyHost(rows=24, cols=80, xpixel=640, ypixel=384)
+        from PIL import Image
+        img = Image.new("RGB", (6, 4), (10, 200, 30))
+        for x in range(6):
+            img.putpixel((x, x % 4), (x * 40, 7, 255 - x))
+        path = str(h.dir / "c06 image.png")
+        img.save(path, format="PNG")
+        _PTY["h"], _PTY["png"] = h, path
+        import atexit
+        atexit.register(_spell_close)
+    return _PTY["h"], _PTY["png"]
+
+
+def _spell_close():
+    h = _PTY.pop("h", None)
+    if h is not None:
+        try:
+            h.close()
+        except Exception:
+            pass
+
+
+_TERM_SRC = """
+import io, os
+for k in [k for k in os.environ if k.startswith("TUPIMAGE_")]:
+    del os.environ[k]
+if env_text is not None:
+    os.environ["TUPIMAGE_UPLOAD_METHOD"] = env_text
+out = io.BytesIO()
+kw = {} if ctor_text is None else {"upload_method": ctor_text}
+stage = "construct"
+try:
+    t = tupimage.TupimageTerminal(config="DEFAULT", id_database=dbfile, terminal_name="vt", terminal_id="vt-1", session_id="s-1",
+                                  out_command=out, out_display=io.BytesIO(), in_response=io.BytesIO(), num_tmux_layers=0, **kw)
+    stage = "get_upload_method"
+    got = None if ctor_text is None and env_text is None else t.get_upload_method().name
+    stage = "upload"
+    if image_kind == "file":
+        image = png
+    else:
+        from PIL import Image
+        image = Image.open(png)
+        image.load()
+    t.upload(image, force_upload=True, force_id=4242, cols=2, rows=1, **({} if call_text is None else {"upload_method": call_text}))
+    result = ["ok", got, out.getvalue().hex()]
+    t.id_manager.close() if hasattr(t.id_manager, "close") else None
+except ValueError as e:
+    result = ["ValueError", stage, out.getvalue().hex(), str(e)[:200]]
+finally:
+    os.environ.pop("TUPIMAGE_UPLOAD_METHOD", None)
+"""
+
+
+def _check_spell_terminal(ctx, d, c):
+    """The spelling given to TupimageTerminal (configuration keyword / environment / per-call argument of upload()); the upload of
+    a PNG file (or of the same picture held in memory) is read from the command stream."""
+    from .common import ToolFailure
+    text, entry, kind = c["text"], c["entry"], c.get("image", "file")
+    h, png = _spell_host()
+    _PTY["n"] = _PTY.get("n", 0) + 1
+    r = h.run(_TERM_SRC, ctor_text=text if entry == "terminal_config" else None, env_text=text if entry == "terminal_env" else None,
+              call_text=text if entry == "terminal_call" else None, png=png, image_kind=kind, dbfile=str(h.dir / ("ids-%d.db" % _PTY["n"])))
+    if "ok" not in r:
+        raise ToolFailure(f"pty-hosted TupimageTerminal failed: {r!r}")
+    res = r["ok"]
+    exp_kind, exp_name = _spell_expected(c)
+    ctx.count("spell-terminal:%s:%s" % (entry, exp_name or "unknown"))
+    model = d2 = ctx.driver("drv_misc").ask(f"c17 norm {hx(b'/sd')} upload_method S{hx(text.encode())};")
+    m_name = {v: k for k, v in ENUM_CODES["medium"].items()}.get(model[4:]) if model.startswith("ok M") else None
+    if res[0] == "ValueError":
+        esc = _escapes(bytes.fromhex(res[2]))
+        impl = ("rejected", res[1] if res[1] != "get_upload_method" else "construct")
+    else:
+        esc = _escapes(bytes.fromhex(res[2]))
+        impl = ("sent", esc[0][0].get("t") if esc else None)
+    # what the statement and the tables ask for: an unknown spelling is refused where it is read; direct and file uploads carry
+    # their letter (a picture held in memory goes through a temporary file when a file is asked for); the library documents
+    # temporary-file and shared-memory uploads as unsupported (ValueError at upload)
+    if exp_kind == "rejected":
+        want = ("rejected", "upload" if entry == "terminal_call" else "construct")
+    elif exp_name == "DIRECT":
+        want = ("sent", "d")
+    elif exp_name == "FILE":
+        want = ("sent", "f" if kind == "file" else "t")
+    else:
+        want = ("rejected", "upload")
+    m_want = ("rejected", "upload" if entry == "terminal_call" else "construct") if m_name is None else \
+        ("sent", "d") if m_name == "DIRECT" else ("sent", "f" if kind == "file" else "t") if m_name == "FILE" else ("rejected", "upload")
+    ctx.eq("upload with the medium given as text: outcome", c, list(impl), list(m_want))
+    if impl != want:
+        ctx.violation("an upload whose medium was given by a documented spelling is not transmitted with the letter the spelling "
+                      "stands for (or an unknown spelling was accepted)", c,
+                      {"spelling": text, "stands_for": exp_name, "expected": want, "got": impl, "detail": res[3:] if res[0] != "ok" else res[1],
+                       "first_escape": (bytes.fromhex(res[2])[:120]).hex()}, key="c06-spell-terminal")
+        return
+    if res[0] == "ok":
+        if res[1] is not None and res[1] != exp_name:
+            ctx.violation("get_upload_method() of a terminal configured by a documented spelling", c, {"got": res[1], "stands_for": exp_name},
+                          key="c06-spell-terminal-method")
+        # all escapes of the upload: exactly one carries the medium key; a file upload names the file
+        with_t = [e for e in esc if "t" in e[0]]
+        if len(with_t) != 1 or with_t[0] is not esc[0]:
+            ctx.violation("the medium key is not carried by exactly the first escape of the upload", c, {"headers": [e[0] for e in esc[:4]]},
+                          key="c06-spell-terminal-keys")
+        if want == ("sent", "f"):
+            import base64
+            if base64.b64decode(esc[0][1]) != png.encode():
+                ctx.violation("file upload does not name the file", c, {"payload": esc[0][1][:200].decode("latin-1"), "file": png},
+                              key="c06-spell-terminal-name")
+
+
+def _check_spell(ctx, d, c):
+    gc = gcmod()
+    enum, entry = c["enum"], c["entry"]
+    ctx.count("spell:%s:%s" % (enum, entry))
+    if entry in TERM_ENTRIES:
+        return _check_spell_terminal(ctx, d, c)
+    exp_kind, exp_name = _spell_expected(c)
+    got_kind, got = _spell_obtain(c)
+    got_name = got.name if got_kind == "ok" and got is not None else None
+    wrong_type = got_kind == "ok" and got is not None and not isinstance(got, getattr(gc, ENUM_OF[enum]))
+    ctx.count("spell-expected:%s:%s" % (enum, exp_name if exp_kind == "ok" else "rejected"))
+    # K: Medium.ofString of the model (the string branch of validate_and_normalize) on the same text
+    if enum == "medium" and "text" in c and c["text"] != "auto" and " " not in c["text"] and "\n" not in c["text"]:
+        model = ctx.driver("drv_misc").ask(f"c17 norm {hx(b'/sd')} upload_method S{hx(c['text'].encode())};")
+        impl = ("ok M" + str(got.value)) if got_kind == "ok" and not wrong_type else "err invalid upload_method"
+        ctx.eq("medium from text vs Medium.ofString", c, impl, model)
+    # F: the spelling is accepted iff it is a documented one, and means the documented member
+    if exp_kind == "rejected":
+        if got_kind != "rejected":
+            ctx.violation("an undocumented spelling of an enum value is accepted", c, {"spelling": c.get("text", c.get("bits", c.get("code"))),
+                          "accepted_as": repr(got)}, key="c06-spell-accepted")
+        return
+    if got_kind == "rejected":
+        ctx.violation("a documented spelling of an enum value is rejected", c, {"stands_for": exp_name, "error": got}, key="c06-spell-rejected")
+        return
+    if wrong_type or got_name != exp_name:
+        # reported below as well, on the wire; this names the entry point
+        ctx.violation("a documented spelling resolves to another member than the one it stands for", c,
+                      {"stands_for": exp_name, "resolved_to": repr(got)}, key="c06-spell-member")
+        if wrong_type:
+            return
+    # the member's own text form is its protocol code
+    if got is not None:
+        code = ENUM_CODES[enum][exp_name]
+        if str(got) != str(code) or got.value != code:
+            ctx.violation("str() / value of an enum member is not its protocol code", c, {"member": repr(got), "str": str(got), "code": code},
+                          key="c06-spell-str")
+    # a command built with what the entry point returned: judged against the member the spelling stands for
+    desc = with_fields(c["cmd"], {enum: exp_name})
+    f = dict(c["cmd"].get("f") or {})
+    f.pop(enum, None)
+    kw = conv_kw(f)
+    kw[enum] = got
+    data = data_bytes(c["cmd"].get("data"))
+    t = desc["type"]
+    obj = gc.TransmitCommand(data=data, **kw) if t == "T" else gc.PutCommand(**kw) if t == "P" else gc.DeleteCommand(**kw)
+    try:
+        impl = ser(obj)
+    except Exception as e:
+        ctx.violation("serialising a command whose enum field came from a documented spelling raised", c, repr(e), key="c06-spell-raises")
+        return
+    tok = tokens(desc, data if t == "T" else None)
+    ctx.eq("command built from a spelling: header/content/to_bytes", c, impl, model_ser(d, tok))
+    if judge(ctx, d, c, "the enum field given by a documented spelling is not serialised with the protocol code it stands for",
+             impl[2], desc, keypfx="c06-spell-"):
+        # and, read plainly, the key carries the literal code of the table (absent when the spelling means "unset")
+        hdr = _escapes(bytes.fromhex(impl[2]))[0][0]
+        key = ENUM_KEY[enum]
+        want = None if exp_name is None else str(ENUM_CODES[enum][exp_name])
+        have = hdr.get(key)
+        if enum == "what" and have is not None and (c["cmd"].get("f") or {}).get("delete_data"):
+            have = have.lower() if have == have.upper() else "not-upper:" + have
+        if have != want:
+            ctx.violation("wire key of an enum field differs from the documented code", c, {"key": key, "have": hdr.get(key), "want": want},
+                          key="c06-spell-code")
+    if t == "T" and c.get("via") == "send" and enum == "medium":
+        out = io.BytesIO()
+        try:
+            obj.send(out, gc.GraphicsCommand.DEFAULT_TEMPLATE, max_size=c.get("max"))
+        except ValueError:
+            return
+        esc = _escapes(out.getvalue())
+        want = ENUM_CODES["medium"][exp_name]
+        if not esc or esc[0][0].get("t") != want or any("t" in e[0] for e in esc[1:]):
+            ctx.violation("send(): medium key of a transmission whose medium came from a documented spelling", c,
+                          {"want": want, "headers": [e[0] for e in esc[:4]]}, key="c06-spell-send")
+
+
+def spell_cases(ctx: Ctx):
+    rng = ctx.rng
+    quick = ctx.quick
+
+    def tbase():
+        f = {"image_id": rng.choice(BOUNDARY + [rnd_int(rng)])}
+        for fld in ("format", "quiet", "compression"):
+            if rng.random() < 0.5:
+                f[fld] = rng.choice(enum_names(fld))
+        if rng.random() < 0.3:
+            f["placement"] = rnd_placement(rng)
+        return f
+
+    # the medium as text: every documented spelling and the unknown ones, through every entry point that reads text
+    for text in list(MEDIUM_SPELLINGS) + MEDIUM_UNKNOWN + ["auto"]:
+        for entry in SPELL_ENTRIES:
+            if text == "auto" and entry != "from_string":
+                continue   # "auto" is a configuration value of its own (not a medium)
+            if entry == "config_env" and "\x00" in text:
+                continue
+            known = text in MEDIUM_SPELLINGS
+            for rep in range((3 if entry == "from_string" else 2) if known else 1):
+                name = MEDIUM_SPELLINGS.get(text)
+                data = rnd_data(rng) if name in (None, "DIRECT") or rng.random() < 0.3 else {"text": rng.choice(NAMES)}
+                yield {"k": "spell", "enum": "medium", "entry": entry, "text": text, "cmd": {"type": "T", "f": tbase(), "data": data},
+                       "via": rng.choice(["to_bytes", "send"]), "max": rng.choice([None, 4096, 256])}
+    # random near-misses of the documented spellings (one edit away) stay unknown
+    alphabet = "dfstreamilhpo_ DFS"
+    seen = set(MEDIUM_SPELLINGS) | set(MEDIUM_UNKNOWN) | {"auto"}
+    for _ in range(60 if quick else 600):
+        w = rng.choice(list(MEDIUM_SPELLINGS))
+        i = rng.randrange(len(w) + 1)
+        how = rng.choice(["ins", "del", "sub", "upper", "swap"])
+        if how == "ins":
+            w2 = w[:i] + rng.choice(alphabet) + w[i:]
+        elif how == "del":
+            w2 = w[:max(0, i - 1)] + w[i:]
+        elif how == "sub":
+            w2 = w[:max(0, i - 1)] + rng.choice(alphabet) + w[i:]
+        elif how == "upper":
+            w2 = w[:max(0, i - 1)] + w[max(0, i - 1):i].upper() + w[i:]
+        else:
+            w2 = w[1:] + w[:1]
+        if w2 in seen:
+            continue
+        seen.add(w2)
+        yield {"k": "spell", "enum": "medium", "entry": rng.choice(SPELL_ENTRIES), "text": w2, "cmd": {"type": "T", "f": tbase(), "data": None}}
+    # through TupimageTerminal (pty-hosted): configuration keyword, environment, per-call argument of upload()
+    for text in list(MEDIUM_SPELLINGS) + ["x", "streams", "Direct", ""]:
+        for entry in TERM_ENTRIES:
+            if entry == "terminal_env" and text == "":
+                continue
+            kinds = ["file", "memory"] if MEDIUM_SPELLINGS.get(text) in ("DIRECT", "FILE") and entry != "terminal_env" else [rng.choice(["file", "memory"])]
+            for kind in kinds:
+                yield {"k": "spell", "enum": "medium", "entry": entry, "text": text, "image": kind, "cmd": {"type": "T", "f": {"medium": MEDIUM_SPELLINGS.get(text)}}}
+    # Format.from_bits, Compression.from_bool
+    for bits in list(FORMAT_BITS) * 3 + FORMAT_BITS_UNKNOWN:
+        yield {"k": "spell", "enum": "format", "entry": "from_bits", "bits": bits, "cmd": {"type": "T", "f": dict(tbase(), medium=rng.choice(enum_names("medium") + [None])), "data": rnd_data(rng)}}
+    for flag in [True, False] * 4:
+        yield {"k": "spell", "enum": "compression", "entry": "from_bool", "flag": flag,
+               "cmd": {"type": "T", "f": dict(tbase(), medium=rng.choice(enum_names("medium") + [None])), "data": rnd_data(rng)}}
+    # every member of every enum by its protocol code and by its name: str() / value / wire
+    for enum, codes in ENUM_CODES.items():
+        for name, code in codes.items():
+            for entry in ("by_value", "by_name"):
+                sel = {"code": code} if entry == "by_value" else {"name": name}
+                if enum == "what":
+                    for dd in (None, False, True):
+                        yield dict({"k": "spell", "enum": enum, "entry": entry, "cmd": {"type": "D", "f": {"image_id": rng.choice(BOUNDARY), "delete_data": dd}}}, **sel)
+                elif enum == "quiet":
+                    for typ in ("T", "P", "D"):
+                        cmd = {"type": typ, "f": {"image_id": rng.choice(BOUNDARY)}}
+                        if typ == "T":
+                            cmd["data"] = rnd_data(rng)
+                        yield dict({"k": "spell", "enum": enum, "entry": entry, "cmd": cmd}, **sel)
+                else:
+                    yield dict({"k": "spell", "enum": enum, "entry": entry, "cmd": {"type": "T", "f": tbase(), "data": rnd_data(rng)}}, **sel)
+
+
 def run_corpus(ctx: Ctx, prop: str, check):
     """corpus cases first (shared by c05.py / c11.py); before them, whatever the command classes declare that the Lean
     model does not know (a new public field, a new enum member) is reported as a broken correspondence."""
@@ -1177,12 +1560,13 @@ def run(ctx: Ctx):
                 "written escapes read back as ONE transmission with the fields that were set and the exact payload. "
                 "distinct = canonical JSON of the case; non-trivial = at least one optional field set or a payload")
     run_corpus(ctx, "C06", check_case)
-    for c in itertools.chain(cases2(ctx), cases(ctx)):
+    for c in itertools.chain(spell_cases(ctx), cases2(ctx), cases(ctx)):
         if ctx.time_left() < 0:
             ctx.count("skipped-over-budget")
             continue
         check_case(ctx, c)
         ctx.case(c, nontrivial=(_nset(c["cmd"]) > 0 or bool(c["cmd"].get("data")) or c["k"] != "cmd"))
+    _spell_close()
     ctx.assumptions += ["field values are natural numbers, booleans or enum members (the declared types)",
                         "in-place edits assign values of the declared types; a stream payload is seekable and is edited only between "
                         "(not during) serialisations; a file opened by set_data_from_file is not changed behind the handle's back"]
